@@ -162,6 +162,8 @@ def shards(tier):
     for variant in range(len(VARIANTS)):
         nops = N_OPS if variant == 4 else N_OPS - 1
         for o1 in range(nops):
+            if q and variant in (0, 1) and o1 in (4, 5):
+                continue       # quick: depth-2 operations first only for the variants that have a depth-2 dependency
             for o2 in range(nops):
                 c = dict(variant=variant, k=k, o1=o1, o2=o2, nm=2 if q else 3)
                 if k < 4:
